@@ -97,6 +97,27 @@ func genOpt(stream string, seed uint64, nRandom int) []GenCase {
 			}
 		}
 	}
+	// constant conditions x what each arm does x what follows: the dead-code, jump and NOP passes all
+	// depend on which arm returns and on whether a jump precedes the first return
+	arms := []string{"", "x = 1;", "rec(1);", "return 1;", "x = 2; return x;", "rec(2); return 2;"}
+	conds := []string{"true", "false", "1 == 1", "1 == 2", "2 * 3 == 6", "1 != 1", "Count == Count"}
+	follows := []string{"", "rec(9); return 9;", "return 8;", "x = 7; rec(x);"}
+	for _, cnd := range conds {
+		for ai, a := range arms {
+			for bi, b := range arms {
+				f := follows[(ai+bi)%len(follows)]
+				for _, script := range []string{
+					"if (" + cnd + ") { " + a + " } else { " + b + " } " + f,
+					"function g() { if (" + cnd + ") { " + a + " } else { " + b + " } " + f + " } g(); rec(5); return 6;",
+					"rec(0); if (" + cnd + ") { " + a + " } " + f,
+					"while (" + cnd + ") { " + a + " " + b + " return 4; } " + f,
+				} {
+					out = append(out, pairCases(stream, fmt.Sprintf("opt-%d", n), &id, script, r, []string{"code", "stack"}, []string{"tmpl:const-cond-arms"}, 1)...)
+					n++
+				}
+			}
+		}
+	}
 	for i := 0; i < nRandom; i++ {
 		g := newG(r.Fork())
 		g.chaos = 3
